@@ -21,7 +21,7 @@ EXPLANATION = ("inductive step: real remove_nasty_arc from an ARBITRARY consiste
 STUBS = []
 ASSUMPTIONS = ["pre-states are the arc subsets inside the windows; every path pins all free arcs (solver query per path)",
                "induction over call sequences is a written argument on top of the solver-checked step"]
-BUDGET_S = {"quick": 1200, "thorough": 7200}
+BUDGET_S = {"quick": 1200, "thorough": 1500}
 SLICE_PATHS = 60
 SEED = int(os.environ.get("VERIF_SEED", "0") or 0)
 
